@@ -221,12 +221,59 @@ REFLECTED_COMPARE = {"lt": "__gt__", "le": "__ge__", "gt": "__lt__", "ge": "__le
 UNARY_NAMES = {"neg", "pos", "abs", "invert"}
 
 
+def _const_eval(mod, node, depth: int = 0):
+    """Value of a module-level expression built from literals, other module-level names, set/dict unions and set()/dict() calls."""
+    if depth > 6:
+        raise ValueError("too deep")
+    if isinstance(node, ast.Constant):
+        return node.value
+    if isinstance(node, ast.Name):
+        if node.id in mod.globals:
+            return _const_eval(mod, mod.globals[node.id], depth + 1)
+        raise ValueError(node.id)
+    if isinstance(node, (ast.Set, ast.List, ast.Tuple)):
+        vals = []
+        for x in node.elts:
+            if isinstance(x, ast.Starred):
+                vals += list(_const_eval(mod, x.value, depth + 1))
+            else:
+                vals.append(_const_eval(mod, x, depth + 1))
+        return set(vals) if isinstance(node, ast.Set) else (list(vals) if isinstance(node, ast.List) else tuple(vals))
+    if isinstance(node, ast.Dict):
+        out = {}
+        for k, v in zip(node.keys, node.values):
+            if k is None:
+                out.update(_const_eval(mod, v, depth + 1))
+            else:
+                out[_const_eval(mod, k, depth + 1)] = _const_eval(mod, v, depth + 1)
+        return out
+    if isinstance(node, ast.BinOp) and isinstance(node.op, (ast.BitOr, ast.Sub, ast.BitAnd)):
+        a, b = _const_eval(mod, node.left, depth + 1), _const_eval(mod, node.right, depth + 1)
+        if isinstance(a, dict) and isinstance(b, dict) and isinstance(node.op, ast.BitOr):
+            return {**a, **b}
+        a, b = set(a), set(b)
+        return a | b if isinstance(node.op, ast.BitOr) else (a - b if isinstance(node.op, ast.Sub) else a & b)
+    if isinstance(node, ast.Call) and isinstance(node.func, ast.Name) and node.func.id in ("set", "frozenset", "dict", "list", "tuple", "sorted"):
+        if not node.args:
+            return {"set": set(), "frozenset": frozenset(), "dict": {}, "list": [], "tuple": (), "sorted": []}[node.func.id]
+        v = _const_eval(mod, node.args[0], depth + 1)
+        if node.func.id == "dict":
+            d = dict(v)
+            for k in node.keywords:
+                d[k.arg] = _const_eval(mod, k.value, depth + 1)
+            return d
+        return {"set": set, "frozenset": frozenset, "list": list, "tuple": tuple, "sorted": sorted}[node.func.id](v)
+    if isinstance(node, (ast.SetComp, ast.DictComp, ast.ListComp)):
+        raise ValueError("comprehension")
+    raise ValueError(type(node).__name__)
+
+
 def _literal(mod, name):
     node = mod.globals.get(name)
     if node is None:
         return None, None
     try:
-        return ast.literal_eval(node), node
+        return _const_eval(mod, node), node
     except Exception:
         return None, node
 
